@@ -339,19 +339,30 @@ TMPL = [
         ("Ax", ["Fa"], [(C("Fa", S(T("a"), T("a"))), "Yes"), (C("!Fa", S(T("b"))), "No"), (S(T("a"), T("b")), "Both")]),
     ]),
     # default values (true and false) used when the reference gives no argument; propagation by name through an intermediate nonterminal
-    TG("t02", "abcd", ["Sx"], [("Fa", "flag", "true"), ("Fb", "flag", "false")], [
-        ("Sx", [], [(S(N("Mx"), T("d"), NT("Mx", "~Fa", "+Fb")), "Root")]),
+    TG("t02", "abcd", ["S1", "S2", "S3", "S4"], [("Fa", "flag", "true"), ("Fb", "flag", "false")], [
+        ("S1", [], [(S(N("Mx")), "R1")]),
+        ("S2", [], [(S(NT("Mx", "~Fa", "+Fb")), "R2")]),
+        ("S3", [], [(S(NT("Mx", "+Fb")), "R3")]),
+        ("S4", [], [(S(NT("Mx", "~Fa"), T("d"), N("Mx")), "R4")]),
         ("Mx", ["Fa", "Fb"], [(S(T("c"), N("Lx")), "Mid")]),
         ("Lx", ["Fa", "Fb"], [(C("Fa && Fb", T("a")), "AB"), (C("Fa && !Fb", T("b")), "AnB"), (C("!Fa && Fb", S(T("a"), T("b"))), "nAB"), (C("!Fa && !Fb", S(T("b"), T("a"))), "nAnB")]),
     ]),
-    # || and precedence of && over ||, == and != with both literals
-    TG("t03", "abcd", ["Sx"], [("Fa", "flag", None), ("Fb", "flag", None), ("Fc", "flag", None)], [
-        ("Sx", [], [(S(NT("Px", "+Fa", "~Fb", "~Fc"), T("d"), NT("Px", "~Fa", "+Fb", "~Fc"), T("d"), NT("Px", "~Fa", "+Fb", "+Fc"), T("d"), NT("Px", "~Fa", "~Fb", "+Fc")), "Root")]),
-        ("Px", ["Fa", "Fb", "Fc"], [(C("Fa || Fb && Fc", T("a")), "P1"), (C("Fa == false && Fb != true", T("b")), "P2"), (C("Fb == true || Fc != false", S(T("c"), T("c"))), "P3"), (S(T("c")), "P4")]),
+    # || and precedence of && over ||, == and != with both literals; one input per valuation keeps the sentences short
+    TG("t03", "abcd", ["S1", "S2", "S3", "S4", "S5"], [("Fa", "flag", None), ("Fb", "flag", None), ("Fc", "flag", None)], [
+        ("S1", [], [(S(NT("Px", "+Fa", "~Fb", "~Fc")), "R1")]),
+        ("S2", [], [(S(NT("Px", "~Fa", "+Fb", "~Fc")), "R2")]),
+        ("S3", [], [(S(NT("Px", "~Fa", "+Fb", "+Fc")), "R3")]),
+        ("S4", [], [(S(NT("Px", "~Fa", "~Fb", "+Fc")), "R4")]),
+        ("S5", [], [(S(NT("Px", "~Fa", "~Fb", "~Fc"), T("d"), NT("Px", "+Fa", "+Fb", "+Fc")), "R5")]),
+        ("Px", ["Fa", "Fb", "Fc"], [(C("Fa || Fb && Fc", T("a")), "P1"), (C("Fa == false && Fb != true", T("b")), "P2"), (C("Fb == true || Fc != false", S(T("c"), T("c"))), "P3"),
+                                    (C("!Fa || !Fb || !Fc", S(T("d"), T("d"))), "P5"), (S(T("c")), "P4")]),
     ]),
     # inline flags with defaults; values copied from another parameter (P: Q) and literal values (P: true)
-    TG("t04", "abc", ["Sx"], [("Fg", "flag", None)], [
-        ("Sx", [], [(S(NT("Ix"), T("c"), NT("Ix", "+Fy"), T("c"), NT("Wx", "+Fg"), T("c"), NT("Wx", "~Fg")), "Root")]),
+    TG("t04", "abc", ["S1", "S2", "S3", "S4"], [("Fg", "flag", None)], [
+        ("S1", [], [(S(NT("Ix")), "R1")]),
+        ("S2", [], [(S(NT("Ix", "+Fy")), "R2")]),
+        ("S3", [], [(S(NT("Wx", "+Fg")), "R3")]),
+        ("S4", [], [(S(NT("Wx", "~Fg"), T("c"), N("Ix")), "R4")]),
         ("Ix", [("Fy", "false")], [(C("Fy", T("a")), "IY"), (C("!Fy", T("b")), "IN")]),
         ("Wx", ["Fg"], [(S(NT("Ix", "Fy:Fg"), NT("Ix", "Fy:true")), "W")]),
     ]),
@@ -362,8 +373,9 @@ TMPL = [
         ("Ex", [("Fz", None)], [(C("Fz", S(T("b"), T("b"))), "E2"), (C("!Fz", T("b")), "E1")]),
     ]),
     # predicates on alternatives of a nested choice and inside a list; conditional alternative removed from a two-way choice
-    TG("t06", "abcd", ["Sx"], [("Fa", "flag", None)], [
-        ("Sx", [], [(S(NT("Nx", "+Fa"), T("d"), NT("Nx", "~Fa")), "Root")]),
+    TG("t06", "abcd", ["S1", "S2"], [("Fa", "flag", None)], [
+        ("S1", [], [(S(NT("Nx", "+Fa"), T("d")), "R1")]),
+        ("S2", [], [(S(NT("Nx", "~Fa"), T("d")), "R2")]),
         ("Nx", ["Fa"], [(S(T("a"), L(A(C("Fa", AR("Lb", T("b"))), AR("Lc", T("c")), C("!Fa", AR("Laa", S(T("a"), T("a"))))), True)), "Nn")]),
     ]),
     # lookahead flag: reaches the first symbol only, through a chain of nonterminals; the second position gets 'false'
@@ -381,8 +393,10 @@ TMPL = [
         ("Qx", [], [(C("!La", T("a")), "Qa"), (S(T("b"), T("b")), "Qb")]),
     ], cap=1100),
     # two lookahead flags and an ordinary flag together
-    TG("t09", "abcd", ["Sx"], [("Fa", "flag", "false"), ("La", "la", "false"), ("Lb", "la", "false")], [
-        ("Sx", [], [(S(NT("Ex", "+La", "+Fa"), T("d"), NT("Ex", "+Lb"), T("d"), NT("Ex", "+La", "+Lb")), "Root")]),
+    TG("t09", "abcd", ["S1", "S2", "S3"], [("Fa", "flag", "false"), ("La", "la", "false"), ("Lb", "la", "false")], [
+        ("S1", [], [(S(NT("Ex", "+La", "+Fa")), "R1")]),
+        ("S2", [], [(S(NT("Ex", "+Lb")), "R2")]),
+        ("S3", [], [(S(NT("Ex", "+La", "+Lb"), T("d"), N("Ex")), "R3")]),
         ("Ex", ["Fa"], [(S(N("Qx"), N("Qx")), "Pair")]),
         ("Qx", ["Fa"], [(C("!La", T("a")), "Qa"), (C("!Lb", T("b")), "Qb"), (C("Fa", S(T("c"), T("a"))), "Qc"), (S(T("c"), T("c")), "Qd")]),
     ], cap=1100),
@@ -390,14 +404,17 @@ TMPL = [
 
 TMPL += [
     # inline flags of the same name, both with defaults: the value travels by name, the default is used only from contexts without such a flag
-    TG("t12", "abc", ["Sx"], [], [
-        ("Sx", [], [(S(NT("Ox", "+Fx"), T("c"), N("Ox"), T("c"), N("Ix")), "Root")]),
+    TG("t12", "abc", ["S1", "S2", "S3"], [], [
+        ("S1", [], [(S(NT("Ox", "+Fx")), "R1")]),
+        ("S2", [], [(S(N("Ox")), "R2")]),
+        ("S3", [], [(S(N("Ix"), T("a"), NT("Ix", "+Fx")), "R3")]),
         ("Ox", [("Fx", "false")], [(S(T("a"), N("Ix")), "Outer")]),
         ("Ix", [("Fx", "false")], [(C("Fx", T("b")), "IY"), (C("!Fx", S(T("c"), T("c"))), "IN")]),
     ]),
     # two lookahead flags pinned by different leading references of one nonterminal; the flag arrives through a parent with another alternative
-    TG("t13", "abcde", ["Sx"], [("La", "la", "false"), ("Lb", "la", "false")], [
-        ("Sx", [], [(S(NT("Xx", "+Lb"), T("c"), N("Xx")), "Root")]),
+    TG("t13", "abcde", ["S1", "S2"], [("La", "la", "false"), ("Lb", "la", "false")], [
+        ("S1", [], [(S(NT("Xx", "+Lb")), "R1")]),
+        ("S2", [], [(S(N("Xx"), T("c"), NT("Xx", "+Lb")), "R2")]),
         ("Xx", [], [(S(N("Tx")), "XT"), (S(N("Wx")), "XW")]),
         ("Tx", [], [(S(NT("Ux", "~Lb"), T("d")), "T1"), (S(NT("Ux", "~La"), T("e")), "T2")]),
         ("Ux", [], [(C("!La", T("a")), "Ua"), (C("!Lb", T("b")), "Ub"), (S(T("d")), "Ud")]),
